@@ -31,7 +31,9 @@ PkRegions(alg) == IF alg = "secp" THEN {<<"head", 1>>, <<"x", 32>>}
                   ELSE IF alg = "ed" THEN {<<"y", 31>>, <<"last", 1>>}
                   ELSE {<<"head", 1>>, <<"body", 47>>}
 MsgRegions == {<<"m", 32>>}
-Positions(len) == IF Tier = "thorough" THEN 0..(len - 1) ELSE {0, len \div 2, len - 1}
+\* quick: the first two, the middle and the last two bytes of every region (x every mask x every operation) - the bytes
+\* in between are the sampled bulk
+Positions(len) == IF Tier = "thorough" THEN 0..(len - 1) ELSE {0, 1, len \div 2, len - 2, len - 1} \cap 0..(len - 1)
 Masks(len) == IF len = 1 THEN {1, 2, 3, 4, 27, 128, 255}
               ELSE IF Tier = "thorough" THEN {1, 16, 128, 255} ELSE {1, 128, 255}
 XorMuts(target, regions) ==
